@@ -149,7 +149,7 @@ def s_start_server(vc):
             vc.ensure("noname.insecure.ok_without_host_check", out.ok and "set1_host" not in tags and "set1_ip" not in tags and "set_tlsext_host_name" not in tags and tags[-1:] == ["set_connect_state"])
         else:
             vc.ensure("noname.verify.raises_ValueError", (not out.ok) and issubclass(out.raised_type(), ValueError))
-            vc.ensure_kf("noname.verify.no_connection_handed_out", isnone(data.ssl_conn), "KF-C15-1", True)
+            vc.ensure("noname.verify.no_connection_handed_out", isnone(data.ssl_conn))   # was KF-C15-1, fixed in 140dd94e3
             vc.ensure("noname.verify.never_connect_state", "set_connect_state" not in tags)
         return
     if not enc_ok:
